@@ -15,7 +15,7 @@ import (
 
 type E struct {
 	Out      *vh.Out
-	nt       map[string]struct{}
+	nt       map[uint64]struct{} // 64-bit hashes of the distinct non-trivial case keys (capped, see Nontrivial)
 	first    map[string]bool
 	start    time.Time
 	deadline time.Time
@@ -43,11 +43,11 @@ func canon(v any) string {
 func New(name string, a *vh.Args) *E {
 	if a.Replay != "" {
 		a.ShardI, a.ShardN = 0, 1
-		e := &E{Out: &vh.Out{Name: name, Exhaustive: true, ViolCounts: map[string]int64{}, Extra: map[string]any{}}, nt: map[string]struct{}{}, first: map[string]bool{}, start: time.Now(), deadline: a.Deadline(), MaxSamp: 6}
+		e := &E{Out: &vh.Out{Name: name, Exhaustive: true, ViolCounts: map[string]int64{}, Extra: map[string]any{}}, nt: map[uint64]struct{}{}, first: map[string]bool{}, start: time.Now(), deadline: a.Deadline(), MaxSamp: 6}
 		e.only = canon(vh.LoadReplay(a.Replay))
 		return e
 	}
-	return &E{Out: &vh.Out{Name: name, Exhaustive: true, ViolCounts: map[string]int64{}, Extra: map[string]any{}}, nt: map[string]struct{}{}, first: map[string]bool{}, start: time.Now(), deadline: a.Deadline(), MaxSamp: 6}
+	return &E{Out: &vh.Out{Name: name, Exhaustive: true, ViolCounts: map[string]int64{}, Extra: map[string]any{}}, nt: map[uint64]struct{}{}, first: map[string]bool{}, start: time.Now(), deadline: a.Deadline(), MaxSamp: 6}
 }
 
 // Case counts one evaluated case; returns false when the time budget is used up
@@ -66,7 +66,21 @@ func (e *E) Case() bool {
 }
 
 // Nontrivial records a distinct non-trivial case key.
-func (e *E) Nontrivial(key string) { e.nt[key] = struct{}{} }
+// (hashes, and at most ntCap of them: a thorough run over 10^8 cases would otherwise hold gigabytes of keys;
+// beyond the cap the count is a lower bound and the evidence says so)
+func (e *E) Nontrivial(key string) {
+	if len(e.nt) >= ntCap {
+		e.Out.Extra["distinct_nontrivial_is_lower_bound"] = true
+		return
+	}
+	h := uint64(14695981039346656037)
+	for i := 0; i < len(key); i++ {
+		h = (h ^ uint64(key[i])) * 1099511628211
+	}
+	e.nt[h] = struct{}{}
+}
+
+const ntCap = 3 << 20
 
 // Sample keeps a few written-out cases.
 func (e *E) Sample(v any) {
